@@ -332,6 +332,8 @@ class Translator:
             s = tnode_or_str.get('desugaredQualType') or tnode_or_str.get('qualType')
         else:
             s = tnode_or_str
+        # libstdc++ spells the element type of a container through allocator traits in some signatures
+        s = re.sub(r"(?:typename )?__gnu_cxx::__alloc_traits<std::allocator<(.+)>, \1>::(?:value_type|reference|const_reference)", r"\1", s)
         try:
             return parse_type(s)
         except TypeErrorX as e:
